@@ -64,6 +64,54 @@ pub fn one_edit(rng: &mut Rng, s: &str) -> String {
     }
 }
 
+/// A typo of `s` at true Damerau-Levenshtein distance <= `edits`, built from the shapes that tell the
+/// edit-distance variants apart: plain edits, adjacent swaps, and a swap with a letter inserted between
+/// or dropped from between the swapped pair (distance 2 in true DL, 3 in optimal-string-alignment).
+pub fn typo(rng: &mut Rng, s: &str, edits: usize) -> String {
+    let mut cs: Vec<char> = s.chars().collect();
+    let mut left = edits;
+    while left > 0 && !cs.is_empty() {
+        let i = rng.below(cs.len());
+        match rng.below(6) {
+            0 => {
+                cs.remove(i);
+                left -= 1;
+            }
+            1 => {
+                cs.insert(i, *rng.pick(&['x', 'q', 'e', 'é']));
+                left -= 1;
+            }
+            2 => {
+                cs[i] = if cs[i] == 'z' { 'y' } else { 'z' };
+                left -= 1;
+            }
+            3 => {
+                if i + 1 < cs.len() && cs[i] != cs[i + 1] {
+                    cs.swap(i, i + 1);
+                    left -= 1;
+                }
+            }
+            4 => {
+                // swap + insertion between: "ab" -> "bxa"
+                if left >= 2 && i + 1 < cs.len() && cs[i] != cs[i + 1] {
+                    cs.swap(i, i + 1);
+                    cs.insert(i + 1, 'x');
+                    left -= 2;
+                }
+            }
+            _ => {
+                // swap around a dropped letter: "abc" -> "ca"
+                if left >= 2 && i + 2 < cs.len() && cs[i] != cs[i + 2] {
+                    cs.swap(i, i + 2);
+                    cs.remove(i + 1);
+                    left -= 2;
+                }
+            }
+        }
+    }
+    cs.into_iter().collect()
+}
+
 pub fn flip_case(s: &str) -> String {
     let mut done = false;
     let r: String = s
